@@ -82,6 +82,11 @@ def region(x, dt, known_open):
     if 'C11:flush:maxabs<NB*2^-126' in known_open:
       lim = z3.FPVal(nb * TINY, F)
       a.append(z3.Or(z3.And([z3.fpIsZero(v) for v in ent]), z3.Or([z3.fpGEQ(fabs(v), lim) for v in ent])))
+    if 'C11:flush:subnormal-entry' in known_open and len(ent) > 1:
+      # a subnormal entry is flushed to 0: harmless once half a bucket is at least 2^-126, i.e. max-abs >= NB * 2^-125
+      lim2 = z3.FPVal(nb * TINY * 2.0, F)
+      big = z3.Or([z3.fpGEQ(fabs(v), lim2) for v in ent])
+      a += [z3.Or(z3.Not(z3.fpIsSubnormal(v)), big) for v in ent]
   return a
 
 
